@@ -75,6 +75,32 @@ func checkC04(ctx *Ctx) {
 		"Free-running sampler lane: every eviction event must carry a deadline earlier than the clock value the sampler used. distinct_nontrivial = distinct (command/options, pre-state kind incl. +ttl, outcome, state-changed) classes")
 	ctx.Assume("virtual clock injected through the verif build: deadlines pass only when the harness moves the clock",
 		"PTTL/PEXPIRETIME compared exactly, TTL may be the floor or the ceiling of the remaining seconds")
+	if inRaceLane() {
+		// race-build child: the lanes with real concurrency (free-running sampler against writers) and a
+		// slice of the random time lines under two policies
+		quietLogs()
+		gens := allGens()
+		weights := make([]int, len(gens))
+		for i := range weights {
+			weights[i] = 1
+		}
+		for pi, pol := range []string{"allkeys-lru", "volatile-lfu"} {
+			pol := pol
+			mk := func() *Inst {
+				in, err := NewInst(InstOpts{Policy: pol, EvictionSample: 20})
+				if err != nil {
+					panic(err)
+				}
+				return in
+			}
+			c04RandomLane(ctx, "random-"+pol, ctx.N(12, 100), gens, weights, mk, pi%2 == 1)
+		}
+		c04SamplerLane(ctx)
+		c04SamplerRaceLane(ctx)
+		return
+	}
+	raceDone := ctx.startRaceLane(ctx.Watchdog())
+	defer func() { <-raceDone }()
 	runWitnesses(ctx, lightInst)
 	alpha := c04Alphabet()
 	inits := [][]Step{
